@@ -39,12 +39,20 @@ type C16Log struct {
 type C16State struct {
 	Accts map[C16Addr]*C16Acct
 	Logs  []C16Log
+	// Ghost is used only when a known defect of the implementation is emulated (see C16Sim.Emulate):
+	// the value an account held when it was removed at the end of an earlier transaction.
+	Ghost map[C16Addr]uint64
 }
 
-func NewC16State() *C16State { return &C16State{Accts: map[C16Addr]*C16Acct{}} }
+func NewC16State() *C16State {
+	return &C16State{Accts: map[C16Addr]*C16Acct{}, Ghost: map[C16Addr]uint64{}}
+}
 
 func (s *C16State) Copy() *C16State {
-	c := &C16State{Accts: make(map[C16Addr]*C16Acct, len(s.Accts)), Logs: append([]C16Log(nil), s.Logs...)}
+	c := &C16State{Accts: make(map[C16Addr]*C16Acct, len(s.Accts)), Logs: append([]C16Log(nil), s.Logs...), Ghost: make(map[C16Addr]uint64, len(s.Ghost))}
+	for a, v := range s.Ghost {
+		c.Ghost[a] = v
+	}
 	for a, ac := range s.Accts {
 		n := *ac
 		n.Storage = make(map[uint64]C16Word, len(ac.Storage))
@@ -69,6 +77,7 @@ func (s *C16State) get(a C16Addr) *C16Acct {
 	if ac == nil {
 		ac = &C16Acct{CodeHost: -1, Storage: map[uint64]C16Word{}}
 		s.Accts[a] = ac
+		delete(s.Ghost, a) // a new object takes the place of the removed one
 	}
 	return ac
 }
@@ -86,6 +95,7 @@ type C16TxResult struct {
 }
 
 type c16sim struct {
+	emulate   bool // emulate the known defect "CreateAccount carries over the balance of a REMOVED account"
 	p         *C16Program
 	st        *C16State
 	uncertain bool
@@ -150,7 +160,13 @@ func (s *c16sim) runStub(stub *C16Stub, ctx C16Addr, static bool, a uint64) (boo
 func (s *c16sim) runCode(codeAddr C16Addr, node *C16Frame, ctx C16Addr, static bool, a uint64) (bool, uint64) {
 	ac := s.st.Accts[codeAddr]
 	if codeAddr == C16Identity {
-		if a < C16ActionGas {
+		// identity precompile on empty input: 15 gas. The generator offers either far too little (< 15,
+		// no stipend) or plenty, so the outcome does not depend on how an allotment is computed.
+		if a < 15 {
+			s.Stats["precompile_call_failed_out_of_gas"]++
+			return false, 0
+		}
+		if a < 2300 {
 			s.uncertain = true
 		}
 		return true, a - min64(a, 1000)
@@ -252,7 +268,15 @@ func (s *c16sim) invoke(inv *C16Inv, ctx C16Addr, static bool, created []C16Addr
 		s.Stats["insufficient_balance"]++
 		return false, newAddr, false, L
 	}
+	if inv.GasMode == C16GConst && L < inv.GasConst+C16ActionGas {
+		// an implementation may charge the requested amount uncapped and fail the CALLER when it cannot pay
+		s.uncertain = true
+		return false, newAddr, true, 0
+	}
 	a, r := allot(inv, L)
+	if inv.Value > 0 && (inv.Kind == C16KCall || inv.Kind == C16KCallCode) {
+		a += 2300 // call stipend
+	}
 	var node *C16Frame
 	if inv.Tgt == C16TgtNode {
 		node = inv.Node
@@ -267,6 +291,10 @@ func (s *c16sim) doCall(kind int, tgt C16Addr, node *C16Frame, value uint64, ctx
 	cctx := ctx
 	switch kind {
 	case C16KCall:
+		if g := s.st.Ghost[tgt]; s.emulate && s.st.Accts[tgt] == nil && g > 0 {
+			s.st.get(tgt).Bal = g
+			s.Stats["emulated_resurrections"]++
+		}
 		s.st.get(ctx).Bal -= value
 		s.st.get(tgt).Bal += value
 		cctx = tgt
@@ -296,7 +324,11 @@ func (s *c16sim) doCreate(addr C16Addr, node *C16Frame, value uint64, ctx C16Add
 		if bal > 0 {
 			s.Stats["create_on_prefunded_address"]++
 		}
+	} else if g := s.st.Ghost[addr]; s.emulate && g > 0 {
+		bal = g
+		s.Stats["emulated_resurrections"]++
 	}
+	delete(s.st.Ghost, addr)
 	s.st.Accts[addr] = &C16Acct{Nonce: 1, Bal: bal, CodeHost: -1, Storage: map[uint64]C16Word{}}
 	s.st.get(ctx).Bal -= value
 	s.st.get(addr).Bal += value
@@ -428,6 +460,22 @@ func NewC16Sim(p *C16Program, pre *C16State) *C16Sim {
 	return &C16Sim{s: &c16sim{p: p, st: pre.Copy(), Stats: map[string]int{}, Addrs: map[C16Addr]bool{}}}
 }
 
+// Emulate switches on the emulation of the known defect (used only to ATTRIBUTE a deviation from the
+// specified behaviour to that defect, never to excuse one).
+func (m *C16Sim) Emulate() { m.s.emulate = true }
+
+// Ghost returns a copy of the emulation's memory of removed accounts' balances.
+func (m *C16Sim) Ghost() map[C16Addr]uint64 {
+	out := map[C16Addr]uint64{}
+	for a, v := range m.s.st.Ghost {
+		out[a] = v
+	}
+	return out
+}
+
+// Reopened tells the simulator that the implementation's state object was re-created from its tries.
+func (m *C16Sim) Reopened() { m.s.st.Ghost = map[C16Addr]uint64{} }
+
 func (m *C16Sim) Stats() map[string]int   { return m.s.Stats }
 func (m *C16Sim) Addrs() map[C16Addr]bool { return m.s.Addrs }
 
@@ -470,6 +518,7 @@ func (m *C16Sim) Tx(i int) *C16TxResult {
 			s.burnt += ac.Bal
 			if ac.Bal > 0 {
 				s.Stats["value_sent_to_selfdestructed_account"]++
+				s.st.Ghost[a] = ac.Bal
 			}
 			delete(s.st.Accts, a)
 		} else if ac.Empty() {
